@@ -558,10 +558,10 @@ def attr_ops_menu(uid, ver, quick_names=None):
     all_names = CONSTRUCTIBLE + UNKNOWN_NAMES
     if ver < (2, 0):
         for n in all_names:
-            for idx in (None, 0, 1, 5):
+            for idx in (None, 0, 1, 5, -1):
                 out.append({'op': 'ModifyAttribute1', 'uid': uid, 'attr': {'name': n, 'index': idx}})
         for n in all_names + NAME_ONLY:
-            for idx in (None, 0, 1, 5):
+            for idx in (None, 0, 1, 5, -1):
                 out.append({'op': 'DeleteAttribute1', 'uid': uid, 'name': n, 'index': idx})
     else:
         for n in CONSTRUCTIBLE:
@@ -1246,6 +1246,8 @@ CORPUS = [
     ((2, 0), 'SYMMETRIC_KEY', 'Active', {'op': 'GetAttributes', 'names': ['Bogus Name']}),
     ((1, 4), 'SYMMETRIC_KEY', 'Active', {'op': 'GetAttributes', 'names': ['Bogus Name']}),
     ((2, 0), 'OPAQUE_DATA', 'PreActive', {'op': 'GetAttributes', 'names': ['State', 'Cryptographic Usage Mask']}),
+    ((1, 1), 'SYMMETRIC_KEY', 'Active', {'op': 'ModifyAttribute1', 'attr': {'name': 'Cryptographic Parameters', 'index': -1}}),
+    ((1, 1), 'SYMMETRIC_KEY', 'Active', {'op': 'ModifyAttribute1', 'attr': {'name': 'Name', 'index': -1}}),
 ]
 
 
